@@ -560,6 +560,56 @@ def _position_local(f, tr):
                                 src = op_local(ds[0][2]["rv"]["a"][0])
                                 if src is not None and len(f.defs().get(src, [])) >= 2:
                                     return src
+    return _remaining_local(f)
+
+
+def _remaining_local(f):
+    """the other way to keep the position: a `&[u8]` local R that starts as the data parameter and is re-sliced in the loop (`R = &R[n..]`) until it is empty"""
+    data_param = next((i for i in range(1, f.argc + 1) if f.local_ty(i) == "&[u8]"), None)
+    if data_param is None:
+        return None
+    loops = set()
+    for h in f.loop_headers():
+        loops |= f.natural_loop(h)
+    for l, ds in sorted(f.defs().items()):
+        if f.local_ty(l) != "&[u8]" or l <= f.argc:
+            continue
+        ds = [d for d in ds if d[1] is not None and not f.is_cleanup(d[0])]
+        outside = [d for d in ds if d[0] not in loops]
+        inside = [d for d in ds if d[0] in loops]
+        if len(outside) == 1 and inside and outside[0][2]["rv"]["r"] == "use" and op_local(outside[0][2]["rv"]["a"][0]) == data_param:
+            return l
+    return None
+
+
+def position_kind(f, P):
+    return "slice" if P is not None and f.local_ty(P) == "&[u8]" else "index"
+
+
+def at_start_assignment(f, P, st):
+    """does this assignment to the position variable put it at the start of the data (P = 0, or R = data)?"""
+    if st["rv"]["r"] != "use":
+        return False
+    if position_kind(f, P) == "slice":
+        l = op_local(st["rv"]["a"][0])
+        return l is not None and 1 <= l <= f.argc and f.local_ty(l) == "&[u8]"
+    return op_const(st["rv"]["a"][0]) == 0
+
+
+def at_start_test(f, P, lab, ex=None):
+    """a branch label that tests "nothing sent yet": `P == 0`, or `R.len() == data.len()` for the slice form.  True / False = the edge asserts it holds / does not hold; None = unrelated"""
+    if lab["kind"] != "cmp" or lab["op"] not in ("Eq", "Ne") or P is None:
+        return None
+    from rules.ipcl import _is_var
+    if position_kind(f, P) == "index":
+        if op_const(lab["b"]) == 0 and _is_var(f, lab["a"], P):
+            return lab["truth"] if lab["op"] == "Eq" else not lab["truth"]
+        return None
+    ex = ex or Expr(f)
+    data_param = next((i for i in range(1, f.argc + 1) if f.local_ty(i) == "&[u8]"), None)
+    sides = {expr_strip_blocks(ex.of_operand(lab["a"])), expr_strip_blocks(ex.of_operand(lab["b"]))}
+    if sides == {("call", "core::slice::len", (("var", P),)), ("call", "core::slice::len", (("param", data_param),))}:
+        return lab["truth"] if lab["op"] == "Eq" else not lab["truth"]
     return None
 
 
@@ -1046,7 +1096,7 @@ def rule_peer_closed(ctx, cfg, F):
         held, pz = st
         for s in f.stmts(b):
             if s["s"] == "assign" and not s["lhs"].get("p") and s["lhs"]["l"] == P:
-                pz = (s["rv"]["r"] == "use" and op_const(s["rv"]["a"][0]) == 0)
+                pz = at_start_assignment(f, P, s)
         if b in chan_blocks or any(d[0] == b for h in holders for d in f.defs().get(h, [])):
             held = True
         if b in fu_blocks and held:
@@ -1058,12 +1108,8 @@ def rule_peer_closed(ctx, cfg, F):
     def edge(b, s, labs, st, env):
         held, pz = st
         for lab in labs:
-            if lab["kind"] == "cmp" and lab["op"] in ("Eq", "Ne") and op_const(lab["b"]) == 0 and P is not None:
-                from rules.ipcl import _is_var
-                if _is_var(f, lab["a"], P) and pz:
-                    is_zero = lab["truth"] if lab["op"] == "Eq" else not lab["truth"]
-                    if not is_zero:
-                        return None
+            if pz and at_start_test(f, P, lab) is False:
+                return None
         return st
     ex.walk(0, (False, False), step, edge=edge)
     for b in sorted(fu_blocks):
